@@ -158,3 +158,14 @@ func (store *HStore) VerifHead(bucketID int) int {
 	}
 	return store.buckets[bucketID].datas.newHead
 }
+
+// VerifWritePos is the position (data file, offset) the next record will be appended at.
+func (store *HStore) VerifWritePos(bucketID int) (int, uint32) {
+	ds := store.buckets[bucketID].datas
+	if ds == nil {
+		return -1, 0
+	}
+	ds.Lock()
+	defer ds.Unlock()
+	return ds.newHead, ds.chunks[ds.newHead].writingHead
+}
